@@ -12,6 +12,7 @@
 //! (digest of the reply bytes) for the equivalence clause.
 //!
 //! usage: vfsasync <abi.json> <out.ndjson> replay <scenarios.ndjson>
+//!        vfsasync <abi.json> <out.ndjson> gen <nscenarios> <nmounts> <shape>     (the seeded generator of vfs.rs; writes scenarios)
 use async_trait::async_trait;
 use fuse_backend_rs::abi::fuse_abi::{stat64, statvfs64, CreateIn, FsOptions, OpenOptions, SetattrValid};
 use fuse_backend_rs::abi::virtio_fs::RemovemappingOne;
@@ -32,7 +33,7 @@ use std::sync::Arc;
 use std::task::{Context as TaskCx, Poll, RawWaker, RawWakerVTable, Waker};
 use std::time::Duration;
 use vharness::scripted::{NullCache, OwnedDirent, Ret, ScriptedFs};
-use vharness::util::{Rng, Trace};
+use vharness::util::{env_u64, Rng, Trace};
 use vharness::wirecodec::{fnv, Abi, Vals};
 use vharness::xport::{err_name, run_fusedev_with, SeqPair};
 
@@ -1132,8 +1133,154 @@ impl World {
 }
 
 
+// ---------------------------------------------------------------------- seeded scenario generator
+fn gen_map(rng: &mut Rng) -> (u32, u32, u32) {
+    match rng.below(13) {
+        9 => (5, 7, 0),                               // empty range
+        10 => (0, 0, 0),                              // empty range at 0
+        11 => (u32::MAX, 0, 1),                       // the single id 2^32-1
+        12 => (0, u32::MAX, 1),
+        0 => (0, 100_000, 65_536),                    // disjoint
+        1 => (100_000, 0, 65_536),                    // reversed
+        2 => (0, 1000, 65_536),                       // overlapping
+        3 => (1000, 0, 65_536),                       // overlapping, reversed
+        4 => (u32::MAX - 65_535, 0, 65_536),          // internal range ends at 2^32-1
+        5 => (0, u32::MAX - 65_535, 65_536),          // external range ends at 2^32-1
+        6 => (5, 7, 1),                               // single id
+        7 => (0, 0, 1000),                            // identity
+        _ => {
+            let r = rng.range(1, 1 << 20) as u32;
+            let i = (rng.next() as u32) % (u32::MAX - r);
+            let e = (rng.next() as u32) % (u32::MAX - r);
+            (i, e, r)
+        }
+    }
+}
+fn mj(m: (u32, u32, u32)) -> Value {
+    json!({"i": m.0, "e": m.1, "r": m.2})
+}
+/// a mount's mapping argument: Some(m) (also with an empty range) or None
+fn mjo(m: Option<(u32, u32, u32)>) -> Value {
+    match m {
+        Some(m) => json!({"i": m.0, "e": m.1, "r": m.2, "some": true}),
+        None => json!({"i": 0, "e": 0, "r": 0, "some": false}),
+    }
+}
+
+fn gen(seed: u64, nsc: usize, nmounts: usize, shape: &str, out: &str) {
+    let mut tr = Trace::create(out);
+    for s in 0..nsc {
+        let mut rng = Rng::new(mix(seed, s as u64 + 1));
+        let shape = if shape == "mix" { *rng.pick(&["churn", "churn", "fill", "nomap", "rmroot"]) } else { shape };
+        // "rmroot": set_remove_pseudo_root(); mount points are leaves, umounts that must be refused (intermediate
+        // pseudo directories, "/", paths never mounted) are mixed in, the probe battery walks to every mount path
+        let rmroot = shape == "rmroot";
+        let g = if shape == "nomap" || rng.chance(1, 3) { (0, 0, 0) } else { gen_map(&mut rng) };
+        let paths: Vec<&str> = match shape {
+            "fill" => vec![],
+            "rmroot" => vec!["/x/y", "/x/z", "/w", "/v/u/t", "/x/./y", "/v/u/../u/t"],
+            _ => vec!["/", "/a", "/a/b", "/b", "/c/d/e", "/a/./b", "/b/", "//a", "/c/../a", "/a/b/../b", "rel", ""],
+        };
+        let mut steps: Vec<Value> = Vec::new();
+        let mut mounted: Vec<String> = Vec::new();
+        let mut nreq = 0u64;
+        let mut req = |rng: &mut Rng, steps: &mut Vec<Value>, n: usize| {
+            for _ in 0..n {
+                nreq += 1;
+                let t = match rng.below(6) {
+                    0 => json!({"t": "root"}),
+                    1 => json!({"t": "mroot", "j": rng.below(300)}),
+                    2 => json!({"t": "pool", "j": rng.below(8)}),
+                    _ => json!({"t": "any"}),
+                };
+                steps.push(json!({"op": "req", "seed": rng.next() >> 1, "t": t}));
+            }
+        };
+        if rng.chance(1, 3) {
+            steps.push(json!({"op": "init", "empty": rng.chance(1, 4), "zmo": rng.chance(1, 2), "zmod": rng.chance(1, 2)}));
+        }
+        let mut nm = 0usize;
+        let mut fillno = 0usize;
+        while nm < nmounts {
+            // "fill": the first 257 mounts go to distinct paths without any umount, so that the table is full
+            // at the 256th (255 indices); afterwards mounts, over-mounts and umounts alternate at a full table
+            let do_umount = !mounted.is_empty() && match shape {
+                "fill" => nm >= 258 && rng.chance(1, 2),
+                _ => rng.chance(2, 5),
+            };
+            if do_umount {
+                let j = rng.below(mounted.len() as u64) as usize;
+                let p = if rmroot && rng.chance(1, 2) {
+                    rng.pick(&["/x", "/", "/q", "/v/u", "/v", "/x/never", "/x/"]).to_string()
+                } else if rng.chance(1, 10) {
+                    "/nonexistent".to_string()
+                } else {
+                    mounted.swap_remove(j)
+                };
+                steps.push(json!({"op": "umount", "path": p}));
+            } else {
+                let p = if shape == "fill" {
+                    fillno += 1;
+                    if nm >= 258 && rng.chance(1, 6) && !mounted.is_empty() { mounted[rng.below(mounted.len() as u64) as usize].clone() } else { format!("/f/{}", fillno) }
+                } else {
+                    rng.pick(&paths).to_string()
+                };
+                let mo = if shape != "nomap" && rng.chance(2, 5) { Some(gen_map(&mut rng)) } else { None };
+                let m = mo.unwrap_or((0, 0, 0));
+                let b = format!("b{}", rng.range(1, 4));
+                let ruid = pick_id(&mut rng, &[m, g]);
+                let rgid = pick_id(&mut rng, &[m, g]);
+                let mut st = json!({"op": "mount", "path": p, "b": b, "m": mjo(mo), "ruid": ruid, "rgid": rgid, "root": (rng.range(1, 1 << 40)).to_string()});
+                if shape != "fill" && rng.chance(1, 8) {
+                    st["init_fail"] = json!(true);      // a backend whose init() fails (refused once the VFS is negotiated)
+                }
+                if rng.chance(1, 40) && !(shape == "fill" && nm < 258) {
+                    st["maxino"] = json!((MAX_INO + 1).to_string());
+                }
+                steps.push(st);
+                if p.starts_with('/') && !mounted.contains(&canon(&p)) {
+                    mounted.push(canon(&p));
+                }
+                nm += 1;
+            }
+            // re-attach a backend in place (restore_mount on the live instance), then requests on that mount
+            if shape != "fill" && !mounted.is_empty() && rng.chance(1, 6) {
+                let p = mounted[rng.below(mounted.len() as u64) as usize].clone();
+                steps.push(json!({"op": "remount", "path": p, "b": format!("b{}", rng.range(1, 4)), "ruid": pick_id(&mut rng, &[g]), "rgid": pick_id(&mut rng, &[g]),
+                    "root": (rng.range(1, 1 << 40)).to_string()}));
+                for rop in ["getattr", "lookup", "readdirplus"] {
+                    steps.push(json!({"op": "req", "rop": rop, "seed": rng.next() >> 1, "t": {"t": "mpath", "path": p}, "fail": false}));
+                }
+            }
+            if rng.chance(1, 60) {
+                steps.push(json!({"op": "init", "empty": rng.chance(1, 4), "zmo": rng.chance(1, 2), "zmod": rng.chance(1, 2)}));
+            }
+            let n = if shape == "fill" { rng.below(3) } else { rng.range(2, 6) } as usize;
+            req(&mut rng, &mut steps, n);
+        }
+        let _ = nreq;
+        let mut sc = json!({"id": format!("rnd-{shape}-{s}"), "src": "random", "kind": "plain", "seed": rng.next() >> 1, "g": mj(g), "scale": 1,
+            "opts": {"no_open": rng.chance(1, 2), "no_opendir": rng.chance(1, 2), "remove_pseudo_root": rmroot}, "nomap": shape == "nomap" && g.2 == 0});
+        if rmroot {
+            // at the end every mount is unmounted by its path; the battery after each step walks to every mount path
+            for p in mounted.iter() {
+                steps.push(json!({"op": "umount", "path": p}));
+            }
+            sc["autoprobe"] = json!(1);
+            sc["paths"] = json!(["/x/y", "/x/z", "/w", "/v/u/t"]);
+        }
+        sc["steps"] = Value::Array(steps);
+        tr.emit(&sc);
+    }
+    tr.flush();
+}
+
 fn main() {
     let args: Vec<String> = std::env::args().collect();
+    if args[3] == "gen" {
+        gen(env_u64("VERIF_SEED", 1), args[4].parse().unwrap(), args[5].parse().unwrap(), &args[6], &args[2]);
+        return;
+    }
     let abi = Abi::load(&args[1]);
     let vfs = Arc::new(Vfs::new(VfsOptions::default()));
     let mut w = World {
